@@ -20,7 +20,7 @@ HERE = os.path.dirname(os.path.abspath(__file__))
 sys.path.insert(0, HERE)
 os.chdir(HERE)
 
-from pyvc import run, extract, solve, astchecks        # noqa: E402
+from pyvc import run, extract, solve, astchecks, replay    # noqa: E402
 from pyvc import contract as C                         # noqa: E402
 
 REPO = os.environ.get('PYVC_REPO', '/repo')
@@ -46,13 +46,16 @@ def group_obligations(index, results, pid):
       continue
     g = groups.setdefault(ob.name, {'kind': ob.kind, 'verdicts': [], 'time': 0.0,
                                     'backends': collections.Counter(), 'fn': q,
-                                    'tried': [], 'meta': ob.meta})
+                                    'tried': [], 'meta': {k: v for k, v in ob.meta.items()
+                                                          if k != 'args0'}, 'sat_obs': []})
     r = results[key]
     g['verdicts'].append(r['verdict'])
     g['time'] += r['time']
     g['backends'][r['backend'] or 'none'] += 1
     if r['verdict'] != 'unsat':
       g['tried'].append(r['tried'])
+    if r['verdict'] == 'sat':
+      g['sat_obs'].append(ob)
   return groups
 
 
@@ -195,6 +198,21 @@ def check_property(pid, tier, seed, write_lock=False):
     payload = {'property': pid, 'obligation': name, 'function': g['fn'],
                'what': what, 'solver_output': g['tried'][:3], 'meta': g['meta'],
                'tier': tier}
+    # the verifier's own counterexample, replayed on the real function
+    rp = None
+    for ob in g.get('sat_obs', [])[:3]:
+      try:
+        rp = replay.replay(reg[g['fn']], ob, REPO, VENV_PY)
+      except Exception as e:        # replay machinery failed: not a verdict
+        rp = None
+      if rp and rp.get('clause_holds_on_real_behaviour') is False:
+        break
+    if rp and rp.get('clause_holds_on_real_behaviour') is False:
+      payload.update({'model_replay': rp, 'inputs': rp['inputs'],
+                      'expected': f'clause {rp["clause"]} of the contract',
+                      'observed': rp['observed']})
+      report_violation(payload)
+      continue
     if unmatched_bounded:
       v = unmatched_bounded[0]
       payload.update({'case': v['case'], 'clause': v.get('clause'),
@@ -349,6 +367,15 @@ def do_replay(path):
   with open(path) as fh:
     rp = json.load(fh)
   pid = rp['property']
+  if rp.get('model_replay'):
+    reg = run.load_contracts()
+    res = replay.rerun(reg[rp['function']], rp['model_replay']['clause'],
+                       rp['model_replay']['inputs'], REPO, VENV_PY)
+    print(json.dumps(res, indent=1, default=str))
+    if res.get('clause_holds_on_real_behaviour') is False:
+      print(f'VIOLATION property={pid} replay={path}')
+      return 1
+    return 0
   if 'case' not in rp:
     print(f'replay file names obligation {rp.get("obligation")} and carries no input '
           f'(no-failing-input-found); re-running the proof obligations of {pid}')
